@@ -210,15 +210,8 @@ class SendersSim(PeerSim):
 
     # ---------------------------------------------------------------- oracle
     def wire(self):
-        """EUT frames in wire order: (evno, fdict, frame, dropped)."""
-        out = []
-        for (ev, cid, data, dropped) in self.writes.get("E", []):
-            frames, err, rest = refframer.split_stream(data)
-            if err or rest:
-                frames = refframer.scan_frames(data)
-            for fr in frames:
-                out.append((ev, refframer.fdict(fr), fr, dropped))
-        return out
+        """EUT frames in wire (stream) order: (evno, fdict, frame, dropped)."""
+        return [(ev, d, fr, dropped) for (ev, cid, d, fr, dropped) in self.frames_written("E")]
 
     def step_check(self):
         # DuplicateSeqNoError must never surface: neither to a caller nor to the log
